@@ -1129,8 +1129,20 @@ func (x *run) finalChecks() {
 		// cache replicas: the cache resolves what git holds
 		if rs.r.Cache != nil && x.on("C01") {
 			for _, id := range ids {
-				if _, err := rs.r.Cache.Bugs().Resolve(entity.Id(id)); err != nil {
+				bc, err := rs.r.Cache.Bugs().Resolve(entity.Id(id))
+				if err != nil {
 					x.violate("unreadable-after-sync", "cache of %s cannot resolve bug %s: %v", rs.r.Name, id[:7], err)
+					continue
+				}
+				// what the replica shows is what it holds: the long-lived cache serves the merged history
+				if want, ok := v.order[id]; ok && !rs.staged[id] {
+					var shown []string
+					for _, op := range bc.Snapshot().Operations {
+						shown = append(shown, string(op.Id()))
+					}
+					if !eq(shown, want) {
+						x.violate("snapshot-differs", "bug %s on %s after synchronisation: the cache shows %s, the repository holds %s", id[:7], rs.r.Name, sh(shown), sh(want))
+					}
 				}
 			}
 		}
